@@ -557,6 +557,13 @@ func c12System(c *Ctx) {
 		if ev, _ := Evaluate(prog, r.Jobs); ev.Rejected == "" && len(r.Panics) == 0 {
 			c.Res.Notes = append(c.Res.Notes, "failed: "+lastLines(r.outBuf.String(), 3))
 		}
+		// a request beyond a limit is clamped, never a reason to fail
+		o := r.outBuf.String()
+		if strings.Contains(o, "Tried to acquire") || strings.Contains(o, "the job manager was only configured") ||
+			strings.Contains(o, "when the maximum is") {
+			c.Res.Violations = append(c.Res.Violations, Violation{"C12", "oversized-request-failed-instead-of-clamped",
+				fmt.Sprintf("with --localcores=%d --localmem=%d a job's request was refused instead of being clamped to the limit: %s", cores, mem, lastLines(o, 6)), r.Steps})
+		}
 	default:
 		if len(r.Panics) == 0 {
 			c.Res.Violations = append(c.Res.Violations, Violation{"C12", "pipestance-stalled",
